@@ -1,5 +1,5 @@
 (* C16 — WaitGroup / OneShotEvent release every waiter exactly when the count hits zero.
-   Statements only; proofs are in proofs/EventBase.v and proofs/EventProofs.v.
+   Statements only; proofs are in proofs/EventBase.v, proofs/EventProofs.v and proofs/EventBatch.v.
 
    [tr] ranges over every sequence of atomic operations of ANY NUMBER of threads doing Add/Done, of waiters of every
    kind (blocking, timed, co_await inline / sticky / on-executor, raw Job), of attached and consumed futures and their
@@ -9,7 +9,7 @@
    predicate [follows_rule n tr] on the trace alone (Event.rule_from); theorems that need it say so. *)
 From Coq Require Import List Arith Bool.
 Import ListNotations.
-From YV Require Import model.Event proofs.EventBase proofs.EventProofs.
+From YV Require Import model.Event proofs.EventBase proofs.EventProofs proofs.EventBatch.
 
 (* ---- release only after the count has reached zero ----------------------------------------------------------
    [rels s] records, for every release of a waiter (Wait / WaitFor-true returned, coroutine resumed inline or by
@@ -149,6 +149,17 @@ Proof.
 Qed.
 Print Assumptions c16_attached_intact.
 
+(* one Attach / Consume call for several futures: the whole batch is counted by ONE Add before the first callback is
+   installed; right after it every future of the batch holds a unit of the count and none is registered yet, so
+   (c16_release_after_zero: count = 0 only if no future holds a unit) no waiter can be released before every future of
+   the call has completed or been given up by the call's final Done *)
+Theorem c16_batch_counted_first :
+  forall n tr s js v s', run (init n) tr = Some s -> broken s' = false -> step s (EFAddN js v) = Some s' ->
+  (forall j, In j js -> exists r, nth_error (fs s') j = Some r /\ holds r = true /\ ap r = A1) /\
+  cnt s' = cnt s + length js /\ length js <= cnt s'.
+Proof. intros n tr s js v s' H. exact (batch_counted_before_registration s js v s' (inv_reach _ _ _ H)). Qed.
+Print Assumptions c16_batch_counted_first.
+
 (* ---- OneShotEvent alone: Set / Wait / TryAdd ------------------------------------------------------------------
    no counter events; Set called at most once (the rule); all of the above holds (the theorems are about the same
    machine), and "reached zero" reads "Set has been called" *)
@@ -240,6 +251,36 @@ Example c16_witness_on_late :
   exists s, run (init 1) [ENewW KOn; ESub 1 0; ETryLd 0 HE; EXchg HE; ETryCas 0 HA; ESelfSubmit 0; ERun 0] = Some s /\
             rels s = [(0, 0, true)].
 Proof. eexists. vm_compute. repeat split. Qed.
+
+(* wg/batch_attach_seq (--pb 3): WaitGroup<0>, Attach(f0, f1) in one call, then Wait() on the same thread *)
+Example c16_witness_batch_attach :
+  exists s, run (init 0) [ENewW KBlock; ENewF FAttach; ENewF FAttach; EFAddN [0; 1] 2; EFLd 0 WE; EFCas 0 true;
+                          EFLd 1 WE; EFCas 1 true; ETryLd 0 HE; ETryCas 0 (HJ 0); EFStore 0 100; EFXchg 0 WC;
+                          EFSubP 0 1; EFStore 1 107; EFXchg 1 WC; EFSubP 1 0; EXchg (HJ 0); ECall 0; ERet 0;
+                          EFGet 0; EFGet 1] = Some s /\
+            rels s = [(0, 0, true)] /\ gots s = [(0, Some 100); (1, Some 107)] /\ broken s = false.
+Proof. eexists. vm_compute. repeat split. Qed.
+
+(* wg/batch3_consume_seq (--pb 2): all three futures already completed: three failed SetCallbacks, ONE Done(3) *)
+Example c16_witness_batch_consume_all_ready :
+  exists s, run (init 0) [ENewW KBlock; ENewF FConsume; ENewF FConsume; ENewF FConsume; EFStore 2 114; EFXchg 2 WE;
+                          EFStore 1 107; EFXchg 1 WE; EFStore 0 100; EFXchg 0 WE; EFAddN [0; 1; 2] 3; EFLd 0 WR;
+                          EFRelA 0; EFLd 1 WR; EFRelA 1; EFLd 2 WR; EFRelA 2; EFSubN [0; 1; 2] 0; EXchg HE;
+                          ETryLd 0 HA; ERet 0] = Some s /\
+            rels s = [(0, 0, true)] /\ broken s = false /\ crash s = false.
+Proof. eexists. vm_compute. repeat split. Qed.
+
+(* counting each future of the call just before its own registration instead (seed 3) is NOT this machine's batch:
+   with WaitGroup<0> the first future's completion brings the count to zero between the two Adds, the second Add then
+   breaks the rule, a waiter gets through while future 1 is pending and the second zero crashes SetImpl *)
+Example c16_per_future_add_is_not_a_batch :
+  exists tr s, run (init 0) tr = Some s /\ follows_rule 0 tr = false /\ rels s = [(0, 1, true)] /\ crash s = true.
+Proof.
+  exists [ENewW KBlock; ENewF FAttach; ENewF FAttach; EFAdd 0 1; EFLd 0 WE; EFCas 0 true; EFStore 0 100; EFXchg 0 WC;
+          EFSubP 0 0; EXchg HE; EFAdd 1 1; EFLd 1 WE; EFCas 1 true; ETryLd 0 HA; ERet 0; EFStore 1 107; EFXchg 1 WC;
+          EFSubP 1 0; EXchg HA].
+  eexists. vm_compute. repeat split.
+Qed.
 
 (* the rule is needed: an Add after the count has been brought to zero lets a waiter through at count 1, and a
    second zero makes SetImpl dereference the sentinel *)
